@@ -177,9 +177,17 @@ ArvizRec(o) == IF ArvizDefined(o)
 RECURSIVE Slice(_, _, _)
 Slice(s, b, t) == IF b >= Len(s) THEN <<>> ELSE <<s[b + 1]>> \o Slice(s, b + t, t)
 
+\* documented call forms: burnthin(Nb, Nt=1) - positional, by keyword, Nt omitted (then Nt = DefaultNt);
+\* compute_ci(percent=95) / ci_width(percent=95) - percent positional, by keyword, omitted (then DefaultPercent).
+\* Every form of a call is the same transition / the same value.
+DefaultNt      == 1
+DefaultPercent == 95
+CallForms(name, t) == IF name \in {"burnthin", "jointburnthin"}
+                      THEN {"pos", "kw"} \cup (IF t = DefaultNt THEN {"default"} ELSE {}) ELSE {}
 EmitEdge(name, b, t, err, post, post2) ==
     Emit => PrintT("@@CASE " \o ToJson([kind |-> "edge", c |-> c, pre |-> obj, pre2 |-> obj2,
-                       op |-> [name |-> name, b |-> b, t |-> t], err |-> err, post |-> post, post2 |-> post2]) \o " @@END")
+                       op |-> [name |-> name, b |-> b, t |-> t, forms |-> CallForms(name, t)],
+                       err |-> err, post |-> post, post2 |-> post2]) \o " @@END")
 
 Refuses(o, b) == IF Dev = "boundary" THEN b > Len(o.cols) ELSE b >= Len(o.cols)
 
@@ -320,13 +328,30 @@ Unpermuted(o) == ArvizDefined(o) => \A k \in 1..Dim(o) : Returned(o)[k] = HandOv
 
 UnpermutedInv == Unpermuted(obj)
 
+\* views of the stored array: one sample has the shape of its form, the array that shape followed by the number of
+\* samples (Samples.shape, Samples.Ns = the last axis); iterating the object yields the stored samples in order.
+SampleShape(o) == IF o.par THEN <<ParDim(o.geom)>> ELSE IF o.vec THEN <<FunvecDim(o.geom)>> ELSE FunShape(o.geom)
+\* the statistic plots (plot_mean / median / variance / std / ci_width) hand to geometry.plot the statistic of the samples,
+\* converted to function values when these are function values in vector form, together with is_par of the object.
+\* For the images this is the statistic of the converted samples: pixel (i, j) carries the statistic of its vector entry.
+PlotObj(o) == IF ~o.par /\ o.vec /\ ~FunIs1D(o.geom) THEN ConvRes(o, "funvals") ELSE o
+VecIdx(g, pos) == IF g = "imgF" THEN pos[2] * 2 + pos[1] ELSE pos[1] * 3 + pos[2]
+PlotStatsOK(o) == PlotObj(o) # o =>
+    \A q \in 1..Len(Coords(PlotObj(o))) : LET pos == Coords(PlotObj(o))[q]
+                                           IN Row(PlotObj(o), pos) = Row(o, <<VecIdx(o.geom, pos)>>)
+
 \* evaluated once per distinct state: LoMedHi and FunStats on the exact statistics of the current object;
 \* also emits these statistics (and those of the second joint member) for the conformance replay
 Node ==
     obj.cols # <<>> =>
     LET S == AllStats(obj)
     IN /\ \A q \in 1..Len(S) : LoMedHiAt(S[q]) /\ FunStatsAt(obj, S[q])
+       /\ PlotStatsOK(obj)
        /\ (Emit => PrintT("@@CASE " \o ToJson([kind |-> "node", c |-> c, obj |-> obj, obj2 |-> obj2, stats |-> S,
+                                               ns |-> Len(obj.cols), shape |-> SampleShape(obj) \o <<Len(obj.cols)>>,
+                                               default_pct |-> IF DefaultPercent \in Percents THEN DefaultPercent ELSE -1,
+                                               plot |-> [is_par |-> obj.par,
+                                                         stats |-> IF PlotObj(obj) = obj THEN <<>> ELSE AllStats(PlotObj(obj))],
                                                stats2 |-> IF c.joint /\ obj2.cols # <<>> THEN AllStats(obj2) ELSE <<>>,
                                                arviz |-> ArvizRec(obj)]) \o " @@END"))
 
